@@ -339,7 +339,8 @@ class IPPO(MultiAgentRLAlgorithm):
         """
         # Get dict of form {"agent_id" : [1, 0, 0, 0]...} etc
         action_masks = {homo_id: [] for homo_id in self.shared_agent_ids}
-        for agent_id, info in infos.items():
+        for agent_id in [a for a in self.agent_ids if a in infos]:
+            info = infos[agent_id]
             if isinstance(info, dict):
                 homo_id = self.get_homo_id(agent_id)
                 action_masks[homo_id].append(
@@ -374,8 +375,11 @@ class IPPO(MultiAgentRLAlgorithm):
         :return: Preprocessed observations
         :rtype: torch.Tensor[float] or dict[str, torch.Tensor[float]] or Tuple[torch.Tensor[float], ...]
         """
+        # Agents of one group are always stacked in the order of self.agent_ids (the order
+        # in which the outputs are handed back), whatever the order of the given dict
         preprocessed = {homo_id: [] for homo_id in self.shared_agent_ids}
-        for agent_id, obs in observation.items():
+        for agent_id in [a for a in self.agent_ids if a in observation]:
+            obs = observation[agent_id]
             homo_id = self.get_homo_id(agent_id)
             preprocessed[homo_id].append(
                 preprocess_observation(
@@ -499,7 +503,8 @@ class IPPO(MultiAgentRLAlgorithm):
         :rtype: ExperiencesType
         """
         shared = {homo_id: {} for homo_id in self.shared_agent_ids}
-        for agent_id, inp in input.items():
+        for agent_id in [a for a in self.agent_ids if a in input]:
+            inp = input[agent_id]
             homo_id = self.get_homo_id(agent_id)
             shared[homo_id][agent_id] = stack_experiences(inp, to_torch=False)[0]
 
